@@ -172,6 +172,12 @@ thread_local! {
     static CLOSURE: std::cell::RefCell<std::collections::HashMap<String, u8>> = std::cell::RefCell::new(std::collections::HashMap::new());
 }
 
+/// Forget the memoised closure results (called at the start of every job so that the measured
+/// counts do not depend on which worker thread ran which job).
+pub fn reset_cache() {
+    CLOSURE.with(|c| c.borrow_mut().clear());
+}
+
 fn law_bits(l: &ValueLaws) -> u8 {
     let mut b = 0;
     if GROUP_A.iter().any(|g| l.failed.contains_key(g)) {
